@@ -33,6 +33,8 @@ type PropConfig struct {
 	Mutators    map[string][]string `json:"mutators"`   // invariant fields → allowed writer functions (§2.10)
 	ExtraStubs  []string          `json:"extra_stubs"`
 	IntMode     string            `json:"int_mode"` // regexp on harness names encoded with integers instead of bit-vectors
+	Summarise   []string          `json:"summarise"` // functions replaced by an arbitrary result (fresh variable per call)
+	Noop        []string          `json:"noop"`      // functions replaced by a no-op (reporting-only side effects)
 }
 
 var (
@@ -173,6 +175,7 @@ type HarnessResult struct {
 	fn         *ssa.Function
 	splitVars  []string
 	splits     []*Term
+	Warnings   map[string]int
 }
 
 func loadProgram(cfg *PropConfig, g *genFiles) (*ssa.Program, []*packages.Package) {
@@ -258,6 +261,7 @@ func runHarness(prog *ssa.Program, pkg *ssa.Package, dir, name string, concrete 
 	hr.assumes = x.assumes
 	hr.rangeAss = x.rangeAss
 	hr.splitVars = x.splitVars
+	hr.Warnings = x.warnings
 	for g := range x.uninitGlob {
 		hr.Uninit = append(hr.Uninit, g)
 	}
@@ -439,6 +443,13 @@ func main() {
 		intModeRe = regexp.MustCompile(cfg.IntMode)
 	}
 	stubPkgs = append(stubPkgs, cfg.ExtraStubs...)
+	for _, name := range cfg.Noop {
+		stubs[name] = noopStub
+	}
+	for _, name := range cfg.Summarise {
+		// pure callee summarised as an arbitrary value of its result type (fresh variable per call)
+		stubs[name] = summaryStub
+	}
 	outDir := filepath.Join(verifDir, "out", cfg.ID)
 	os.MkdirAll(outDir, 0o755)
 	g := generate(&cfg, outDir)
@@ -492,7 +503,9 @@ func main() {
 				continue
 			}
 			// discharge this harness' obligations in parallel (term store is read-only now)
-			discharge(&cfg, hr, getPool, solverName, fpSolver, qTimeout, *jobs, *dump, outDir)
+			nq, nms := dischargeHarness(&cfg, hr, getPool, solverName, fpSolver, qTimeout, *jobs, *dump, outDir)
+			rep.queries += nq
+			rep.solverMS += nms
 			na, np, nu := 0, 0, 0
 			for _, o := range hr.Obls {
 				switch o.Kind {
